@@ -1,6 +1,6 @@
 (* C10 — a future is completed at most once and reports one consistent outcome.
    Only statements; every proof is `exact <lemma>`. *)
-From Asynq Require Import Base Futures proofs.FuturesProofs.
+From Asynq Require Import Base Futures proofs.FuturesProofs TaskFut proofs.TaskFutProofs.
 
 Theorem C10_single_assignment : forall s oc, out s = Some oc ->
   (forall v, step s (OSetValue v) = (s, RRaise E_ALREADY)) /\
@@ -38,3 +38,70 @@ Theorem C10_const_error_complete : forall p v e,
   out (init KConst p (Ok v)) = Some (Ok v) /\ out (init KError p (Err e)) = Some (Err e).
 Proof. exact const_error_complete. Qed.
 Print Assumptions C10_const_error_complete.
+
+(* ---- scheduled AsyncTask completed from outside while suspended (TaskFut.v) ---- *)
+
+Theorem C10_task_single_assignment : forall s oc, tout s = Some oc ->
+  (forall v, tstep s (OSetValue v) = (s, RRaise E_ALREADY)) /\
+  (forall e, tstep s (OSetError e) = (s, RRaise E_ALREADY)) /\
+  (forall c v, istep c s (ISetValue v) = (s, RRaise E_ALREADY)) /\
+  (forall c e, istep c s (ISetError e) = (s, RRaise E_ALREADY)).
+Proof. exact task_single_assignment. Qed.
+Print Assumptions C10_task_single_assignment.
+
+Theorem C10_task_ext_set_completes : forall c s, tout s = None ->
+  (forall v, let '(s', r) := istep c s (ISetValue v) in
+     tout s' = Some (Ok v) /\ tgen s' = None /\ tlog s' = tlog s ++ notes (tsubs s) (Ok v) /\
+     r = close_result c) /\
+  (forall e, let '(s', r) := istep c s (ISetError e) in
+     tout s' = Some (Err e) /\ tgen s' = None /\ tlog s' = tlog s ++ notes (tsubs s) (Err e) /\
+     r = close_result c).
+Proof. exact ext_set_completes. Qed.
+Print Assumptions C10_task_ext_set_completes.
+
+Theorem C10_task_inner_notify_once_after : forall c s o,
+  let s' := fst (istep c s o) in
+  match tout s, tout s' with
+  | None, Some oc => tlog s' = tlog s ++ notes (tsubs s) oc /\ tsubs s' = tsubs s
+  | _, _ => tlog s' = tlog s
+  end.
+Proof. exact inner_notify_once_after. Qed.
+Print Assumptions C10_task_inner_notify_once_after.
+
+Theorem C10_task_inner_computed : forall c s oc o, tout s = Some oc ->
+  let '(s', r) := istep c s o in
+  quiet s s' /\ truns s' = truns s /\
+  (is_iset o = true -> s' = s /\ r = RRaise E_ALREADY) /\
+  (is_iread o = true -> r = ireport o oc).
+Proof. exact istep_computed. Qed.
+Print Assumptions C10_task_inner_computed.
+
+Theorem C10_task_body_completes_once : forall ph s, tout s = None -> completed_once s (exec s ph).
+Proof. exact exec_completes_once. Qed.
+Print Assumptions C10_task_body_completes_once.
+
+Theorem C10_task_notify_once_after : forall s o,
+  let s' := fst (tstep s o) in
+  match tout s with
+  | Some _ => tlog s' = tlog s
+  | None => (tout s' = None /\ tlog s' = tlog s) \/ completed_once s s'
+  end.
+Proof. exact task_notify_once_after. Qed.
+Print Assumptions C10_task_notify_once_after.
+
+Theorem C10_task_stable : forall ops s oc,
+  tout s = Some oc -> forallb (fun o => negb (is_reset o)) ops = true ->
+  let '(s', rs) := trun s ops in
+  tout s' = Some oc /\ tlog s' = tlog s /\ truns s' = truns s /\ tall_reads_report ops rs oc.
+Proof. exact task_stable. Qed.
+Print Assumptions C10_task_stable.
+
+Theorem C10_task_read_reports : forall s o s' r oc,
+  tstep s o = (s', r) -> is_read o = true -> tout s' = Some oc -> r = report o oc.
+Proof. exact task_read_reports. Qed.
+Print Assumptions C10_task_read_reports.
+
+Theorem C10_task_compute_once : forall s o,
+  (truns (fst (tstep s o)) <= S (truns s))%nat /\ (tout s <> None -> truns (fst (tstep s o)) = truns s).
+Proof. exact task_compute_once. Qed.
+Print Assumptions C10_task_compute_once.
